@@ -501,7 +501,82 @@ def case_samename(case, col=None):
         logging.disable(logging.NOTSET)
 
 
+PARSE_LINES = ["xk = [xtemp]", "xs = [xtime]", "xm = [xlen]", "tX = 2 * xk; offset: 10", "@context cmult", "    tX = 4 * xk", "@end", "@context coff", "    tX = 8 * xk; offset: 3", "@end"]
+
+
+def case_parse_scope(case, col=None):
+    """how a compound unit string is read depends on the definitions in force (an offset unit inside a compound expression is read as its delta
+    counterpart, a unit that a context makes multiplicative is not): entering and leaving the contexts changes the reading and the value back and
+    forth, whatever was parsed before"""
+    import pint
+
+    ureg = pint.UnitRegistry(list(PARSE_LINES), non_int_type=Fraction)
+    stack = []
+    if col is not None:
+        col.case(("ps", str(case["ops"])), any(o[0] == "enter" for o in case["ops"]) and any(o[0] == "ask" for o in case["ops"]), sample=case, cls="parse_scope")
+    try:
+        for op in case["ops"]:
+            if op[0] == "enter":
+                ureg.enable_contexts(op[1])
+                stack.append(op[1])
+            elif op[0] == "leave":
+                if stack:
+                    ureg.disable_contexts(1)
+                    stack.pop()
+            else:
+                text = ("tX / xs", "xm * tX", "tX ** 2")[op[1]]
+                top = stack[-1] if stack else None
+                mult = top == "cmult"
+                want_name = "tX" if mult else "delta_tX"
+                scale = {None: 2, "cmult": 4, "coff": 8}[top]
+                s_, u = attempt(ureg.parse_units, text)
+                if s_ == "err":
+                    raise Violation(f"parse_in_context_raised:{exc_class(u)}", f"after {case['ops']}: parse_units({text!r}) raised {u!r}")
+                if want_name not in dict(u._units) or ("tX" if want_name != "tX" else "delta_tX") in dict(u._units):
+                    raise Violation("reading_of_unit_string_not_scoped", f"after {case['ops']} (active: {stack}): parse_units({text!r}) = {dict(u._units)}, expected the offset unit read as {want_name!r}")
+                e = dict(u._units)[want_name]
+                tgt = {"tX / xs": "xk / xs", "xm * tX": "xm * xk", "tX ** 2": "xk ** 2"}[text]
+                s2, v = attempt(lambda: ureg.Quantity(1, text).to(tgt).magnitude)
+                if s2 == "err" or Fraction(v) != Fraction(scale) ** int(e):
+                    raise Violation("value_of_unit_string_not_scoped", f"after {case['ops']} (active: {stack}): Q(1,{text!r}).to({tgt!r}) -> {v!r}, expected {Fraction(scale) ** int(e)}")
+    finally:
+        ureg.disable_contexts()
+
+
+def case_unresolvable_endpoint(case, col=None):
+    """a Context object whose rule names a unit the registry does not know cannot be activated - not the first time, not the second; nothing is left
+    behind, and the same object still works in a registry that knows the unit"""
+    import pint
+
+    if col is not None:
+        col.case(("ue", case["form"]), True, sample=case, cls="unresolvable_endpoint")
+    a = pint.UnitRegistry(["xm = [xlen]", "xs = [xtime]"], non_int_type=Fraction)
+    b = pint.UnitRegistry(["xm = [xlen]", "xs = [xtime]", "smoot = 17 * xm"], non_int_type=Fraction)
+    ctx = pint.Context("cshared")
+    src = {"name": "smoot", "unit": b.Unit("smoot"), "dict": {"smoot": 1}}[case["form"]]
+    ctx.add_transformation(src, "[xtime]", lambda ureg, x: x * ureg.Quantity(3, "xs / xm"))
+    for attempt_no in (1, 2, 3):
+        s_, r_ = attempt(a.enable_contexts, ctx)
+        if s_ == "ok":
+            a.disable_contexts()
+            raise Violation("invalid_activation_accepted:unresolvable_rule_endpoint", f"attempt {attempt_no}: a registry that does not define 'smoot' activated a context whose rule starts from it ({case['form']})")
+        if a._active_ctx.contexts:
+            raise Violation("failed_activation_changed_state:unresolvable_rule_endpoint", f"attempt {attempt_no}: raised {type(r_).__name__} but the context is on the stack")
+    s2, v = attempt(lambda: b.Quantity(2, "smoot").to("xs", ctx).magnitude)
+    if s2 == "err" or Fraction(v) != 2 * 17 * 3:
+        raise Violation("shared_context_unusable_after_failed_activation_elsewhere", f"the registry that defines smoot: Q(2,'smoot').to('xs', ctx) -> {v!r}, expected 102")
+
+
 def run_shared(task, tier, seed, col):
+    import itertools
+
+    alphabet = [("enter", "cmult"), ("enter", "coff"), ("leave",), ("ask", 0), ("ask", 1), ("ask", 2)]
+    for n in (2, 3, 4):
+        for i_, ops in enumerate(itertools.product(alphabet, repeat=n)):
+            if sum(1 for o in ops if o[0] == "ask") and (n < 4 or i_ % 3 == seed % 3 or tier == "thorough"):
+                col.run_case(lambda c: case_parse_scope(c, col), {"ops": [list(o) for o in ops]})
+    for form in ("name", "unit", "dict"):
+        col.run_case(lambda c: case_unresolvable_endpoint(c, col), {"form": form})
     sstrat = st.lists(st.tuples(st.sampled_from(["named", "named", "anonymous", "extend"]), st.sampled_from([4, 10, 6, 7])), min_size=2, max_size=5).map(lambda st_: {"steps": [list(x) for x in st_]})
     hyp_search(col, sstrat, lambda c: case_samename(c, col), max_examples=60 if tier == "quick" else 1000, seed=seed * 197)
     strat = st.lists(st.tuples(st.integers(0, 1), st.sampled_from([0, 2, 7, 0])), min_size=1, max_size=6).map(lambda ops: {"ops": [list(o) for o in ops]})
@@ -515,6 +590,10 @@ def run_task(task, tier, seed, col):
 def replay(sub, case):
     if sub == "shared" and "steps" in case:
         return case_samename(case)
+    if sub == "shared" and "form" in case:
+        return case_unresolvable_endpoint(case)
+    if sub == "shared" and case.get("ops") and isinstance(case["ops"][0][0], str):
+        return case_parse_scope(case)
     if sub == "shared":
         return case_shared(case)
     return case_seq(case)
